@@ -27,9 +27,10 @@ def teq(a, b):
     if len(oa) != len(ob):
         return False
     for x, y in zip(oa, ob):
-        # biclosed Over/Under objects: structural
+        # biclosed Over/Under objects: compared structurally through their
+        # printed form, not through the library's own __eq__
         if hasattr(x, 'left') or hasattr(y, 'left'):
-            if not (x == y):
+            if type(x) is not type(y) or repr(x) != repr(y):
                 return False
     return AND(*[ob_eq(x, y) for x, y in zip(oa, ob)
                  if not (hasattr(x, 'left') or hasattr(y, 'left'))])
